@@ -265,7 +265,19 @@ def parser_table(ctx, p):
                     cl &= set()
         return cl
 
-    def walk(bb, conds, eff, seen, out):
+    def mode_switch_at(bb):
+        """If bb switches on the parser mode: {variant name -> target} (+ "otherwise")."""
+        info = p.switch_info(bb)
+        if not info or info["kind"] != "variant" or not (info.get("adt") or "").endswith("::Mode") or p.is_drop_switch(bb):
+            return None
+        pv = p.vars_of_place(info["place"])
+        if not (len(pv) == 1 and next(iter(pv)) == (("var", mode_local),)) and info["place"]["local"] != mode_local:
+            return None
+        out = {names.get(v, str(v)): d for v, d in info["targets"]}
+        out["otherwise"] = info["otherwise"]
+        return out
+
+    def walk(bb, conds, eff, seen, out, mode=None):
         if bb in seen:
             return
         seen = seen | {bb}
@@ -273,23 +285,30 @@ def parser_table(ctx, p):
         if bb in latch or bb == lp["header"] or bb not in lp["body"] and not p.succ[bb]:
             out.append((conds, eff))
             return
+        if mode is not None:
+            # the mode is given: a test of the mode variable has one outcome (the mode is only
+            # assigned after it was last tested on every path the reference table has)
+            ms = mode_switch_at(bb)
+            if ms is not None and not any(e2[0] == "mode" for e2 in eff):
+                walk(ms.get(mode, ms["otherwise"]), conds, eff, seen, out, mode)
+                return
         st = str_test(bb)
         if st is not None:
             b, t, fl, swbb = st
-            walk(t, conds + [(b, True)], eff, seen | {swbb}, out)
-            walk(fl, conds + [(b, False)], eff, seen | {swbb}, out)
+            walk(t, conds + [(b, True)], eff, seen | {swbb}, out, mode)
+            walk(fl, conds + [(b, False)], eff, seen | {swbb}, out, mode)
             return
         succ = p.succ[bb]
         if not succ:
             out.append((conds, eff))
             return
         if len(succ) == 1:
-            walk(succ[0], conds, eff, seen, out)
+            walk(succ[0], conds, eff, seen, out, mode)
             return
         # other branching (results of bundle parsing, drop flags): union of the arms
         acc = []
         for d in succ:
-            walk(d, conds, eff, seen, acc)
+            walk(d, conds, eff, seen, acc, mode)
         merged = {}
         for (cd, ef) in acc:
             key = tuple(cd)
@@ -298,14 +317,17 @@ def parser_table(ctx, p):
             out.append((list(key), ef))
 
     table = {}
-    for v, d in mode_sw["targets"]:
+    for v, nm in sorted(names.items()):
+        # one walk per mode, from the start of the loop body: the order in which mode and line
+        # are tested (nested matches, one match on the pair, a shared arm for several modes)
+        # does not matter
         out = []
-        walk(d, [], set(), {mode_sw["bb"]}, out)
+        walk(lp["some"][1], [], set(), set(), out, nm)
         row = {}
         for (conds, eff) in out:
             for cl in classes(conds):
                 row.setdefault(cl, set()).update(eff)
-        table[names.get(v, str(v))] = row
+        table[nm] = row
     # end of input
     end = {}
     end_sw = None
@@ -698,10 +720,12 @@ def c13_r3(ctx):
             ao = g.origins_of_operand(c.args[i])
             vo = g.vars_of_operand(c.args[i])
             sorted_var = False
+            fam = {o for o in g.var_family(c.args[i]) if o[0][0] == "var" and len(o) == 1}
             for v in vo:
                 if v[0][0] == "var":
                     for s in g.calls_to(SORT):
-                        if g.vars_of_operand(s.args[0]) == {v} and g.dominated_by_blocks(c.bb, [s.bb]):
+                        sv = g.vars_of_operand(s.args[0])
+                        if (sv == {v} or (sv and sv <= fam)) and g.dominated_by_blocks(c.bb, [s.bb]):
                             sorted_var = True
             if sorted_var:
                 continue
@@ -729,9 +753,125 @@ def c13_r3(ctx):
             ctx.ok()
 
 
+def _is_sorted_by_index(ctx, f):
+    """`for i in 1..data.len() { if data[i-1] > data[i] { return false } } true`, or the same with
+    a counter (`let mut i = 1; while i < data.len() { .. i += 1 }`).  True / False as judged,
+    None if the function is not written that way."""
+    cmps = [c for c in f.calls if c.path.startswith("std::cmp::PartialOrd::") and c.name in ("gt", "lt", "ge", "le") and f.on_cycle(c.bb)]
+    if len(cmps) != 1:
+        return None
+    c = cmps[0]
+
+    def pos_of(op):
+        """operand = &data[k] -> origins of k (data = the parameter)"""
+        out = set()
+        for o in f.origins_of_operand(op):
+            if o[0] == ("param", 1) and len(o) == 2 and o[1][0] == "index":
+                out |= f._origins(o[1][1], (), frozenset())         # slice[k]
+            elif o[0][0] == "call" and len(o) == 1 and "Index" in o[0][3]:
+                ix = f.call_at[o[0][2]]                              # vec[k] through Index::index
+                if not all(x == (("param", 1),) for x in f.origins_of_operand(ix.args[0])):
+                    return None
+                out |= f.origins_of_operand(ix.args[1])
+            else:
+                return None
+        return out
+    pa, pb = pos_of(c.args[0]), pos_of(c.args[1])
+    if not pa or not pb:
+        return None
+
+    def minus_one_of(x, y):
+        """x == y - 1 ?"""
+        for o in x:
+            if o[0][0] == "binop" and o[0][4] in ("SubWithOverflow", "Sub"):
+                st = f.blocks[o[0][2]]["stmts"][o[0][3]]["rv"]
+                if st["b"]["k"] == "const" and st["b"].get("bits") == "1" and f.origins_of_operand(st["a"]) == y:
+                    continue
+            return False
+        return bool(x)
+    if minus_one_of(pa, pb):
+        lo_first, pos = True, pb
+    elif minus_one_of(pb, pa):
+        lo_first, pos = False, pa
+    else:
+        return None
+    # the running position covers 1..len
+    lps = f.loops()
+    covered = False
+    exit_edges = set()
+    if len(lps) == 1 and pos == lps[0]["elem"]:
+        it = lps[0]["iter"]
+        for o in it:
+            if o[0][0] == "agg" and o[0][4].endswith("Range::Range") and len(o) == 1:
+                rv = f.blocks[o[0][2]]["stmts"][o[0][3]]["rv"]
+                a, b2 = rv["ops"]
+                lo = f.origins_of_operand(b2)
+                if a["k"] == "const" and a.get("bits") == "1" and lo and all(x[0][0] == "call" and x[0][3].split("::")[-1] == "len" and
+                                                                             all(y == (("param", 1),) for y in f.origins_of_operand(f.call_at[x[0][2]].args[0])) for x in lo):
+                    covered = True
+                    exit_edges = {lps[0]["none"]}
+    elif not lps:
+        # counter form
+        roots = {o[0] for o in pos}
+        vs = f.vars_of_operand(c.args[0]) | f.vars_of_operand(c.args[1])
+        cnt = None
+        for l, nm in f.names.items():
+            defs = f.defs.get(l, ())
+            if f.local_ty(l)["s"] != "usize" or len(defs) != 2:
+                continue
+            consts = [d for d in defs if d[0] == "assign" and d[4]["k"] == "use" and d[4]["op"]["k"] == "const" and d[4]["op"].get("bits") == "1"]
+            incs = []
+            for d in defs:
+                if d[0] == "assign" and d not in consts:
+                    for o in f._rv_origins(d[4], (), d[1], d[2], frozenset()):
+                        if o[0][0] == "binop" and o[0][4] in ("AddWithOverflow", "Add"):
+                            st = f.blocks[o[0][2]]["stmts"][o[0][3]]["rv"]
+                            if st["a"]["k"] in ("copy", "move") and st["a"]["place"]["local"] == l and st["b"]["k"] == "const" and st["b"].get("bits") == "1":
+                                incs.append(d)
+            if len(consts) == 1 and len(incs) == 1:
+                cnt = l
+        if cnt is not None:
+            def bound(d):
+                ao, bo = f.vars_of_operand(d["a"]), f.origins_of_operand(d["b"])
+                return ao == {(("var", cnt),)} and bo and all(x[0][0] == "call" and x[0][3].split("::")[-1] == "len" for x in bo)
+            inside = f.cmp_edges(lambda d: d["op"] == "Lt" and bound(d), True)
+            exit_edges = f.cmp_edges(lambda d: d["op"] == "Lt" and bound(d), False)
+            if inside and exit_edges and f.dominated_by_edges(c.bb, inside) and f.vars_of_operand(c.args[0 if not lo_first else 1]) is not None:
+                covered = True
+    if not covered:
+        return None
+    # out of order = lo > hi
+    if lo_first:
+        bad_true = c.name == "gt"
+        bad_false = c.name == "le"
+    else:
+        bad_true = c.name == "lt"
+        bad_false = c.name == "ge"
+    if not (bad_true or bad_false):
+        return False        # compares adjacent elements, but with the wrong relation (e.g. >= rejects equal neighbours)
+    bad_e = f.bool_edges_of_call(c, True if bad_true else False)
+    for (kind, bb, i, place, payload) in f.defs.get(0, ()):
+        if kind != "assign" or payload["k"] != "use" or payload["op"]["k"] != "const":
+            return None
+        val = payload["op"].get("bits") == "1"
+        if val and not f.dominated_by_edges(bb, exit_edges):
+            return False
+        if not val and not f.dominated_by_edges(bb, bad_e):
+            return False
+    falses = [bb for (kind, bb, i, place, payload) in f.defs.get(0, ()) if kind == "assign" and payload["op"].get("bits") == "0"]
+    r = f.reach([x for (_, x) in bad_e if x not in falses], avoid_blocks=falses)
+    if any(b2 in r for b2 in f.return_blocks) or c.bb in r:
+        return False
+    return True
+
+
 def _is_sorted_pred(ctx, f):
     """windows(2).all(|w| w[0] <= w[1])  (seen after desugaring as a loop over windows(2))"""
     w = [c for c in f.calls if c.path == "core::slice::<impl [T]>::windows"]
+    if not w:
+        by_index = _is_sorted_by_index(ctx, f)
+        if by_index is not None:
+            return by_index
     if len(w) != 1 or w[0].args[1].get("bits") != "2":
         return None         # not the windows(2) form: this reader cannot judge it
     if not all(o[0][0] == "param" for o in f.origins_of_operand(w[0].args[0])):
